@@ -813,6 +813,15 @@ def _propagate(ctx, f, res: Result, selfp: T, tpar: T, mode: str):
     ok3 = False
     for e in setm:
         v = e.data["value"]
+        # a list that is grown in a local variable and stored afterwards:
+        # what it started as
+        for _ in range(6):
+            if v.op == "loopout":
+                v = v.args[2]
+            elif v.op in ("mut", "upd"):
+                v = v.args[0]
+            else:
+                break
         if v.op == "list" and len(v.args) == 1 and v.args[0].op == "sub" \
                 and tm.is_const(v.args[0].args[1], 0):
             ok3 = True
